@@ -298,6 +298,12 @@ class Check:
             return
         fn = os.path.join(REPLAYS, '%s-%d.json' % (self.pid, n))
         confirmed = None; native = None
+        if getattr(self, 'unconfirmed', 0) >= 8:
+            # eight counterexamples of this run already failed to manifest natively: the run is inconclusive whatever happens next; further candidate
+            # searches (up to a minute each) are skipped so that the verdict arrives in bounded time. Never reported as a pass.
+            self.inconclusive.append('%s: counterexample not examined natively (8 earlier ones of this run did not manifest)' % oid)
+            rec['replay_confirmed'] = False
+            return
         if native_pred is not None and path.steps and not os.environ.get('VERIF_NO_REPLAY'):
             # the path was explored with stubbed kernels (uninterpreted functions): the interpreter's prediction is not comparable with a
             # native run, so the violation is confirmed by evaluating the obligation's own predicate on the REAL outputs for concrete inputs
@@ -324,6 +330,7 @@ class Check:
                 if ok:
                     confirmed = True; model = m; native = tried[-1]; break
             if not confirmed:
+                self.unconfirmed = getattr(self, 'unconfirmed', 0) + 1
                 self.inconclusive.append('%s: the solver counterexample (stubbed kernels) did not manifest natively on %d candidate inputs (%s)' % (oid, len(tried), fn))
                 rec['replay_confirmed'] = False
                 json.dump(dict(property=self.pid, obligation=oid, desc=desc, native=tried), open(fn, 'w'), indent=1, default=str)
